@@ -24,7 +24,8 @@ static int pat_match[NPAT][NTOPIC];       /* computed with the same regcomp flag
 enum { PR_LOW, PR_NORM, PR_HIGH };
 typedef struct { int present, prio, oneshot, upver; } sub_t;
 static char UPV[NM][NPAT][2];             /* user pointers given at subscription (identity only) */
-static char SRCUP[NM][16];                /* user pointers of non-ps sources */
+static char SRCUP[NM][16];
+static char PATHS[2][64]; static int CHILD[2];   /* path and pid keys (created once per worker) */                /* user pointers of non-ps sources */
 
 /* messages */
 #define MAXMSG 64
@@ -41,8 +42,10 @@ typedef struct { const m_evt_t *p; int kind, msg, key; const void *ud; int refs;
 #define MAXEV 32
 
 /* non-ps sources of a module */
-enum { K_FD, K_TMR, NKIND };
-#define MAXSRC 6
+enum { K_FD, K_TMR, K_SGN, K_PATH, K_PID, K_TASK, K_THRESH, NKIND };
+static const char *KN[NKIND] = { "fd", "timer", "signal", "path", "pid", "task", "threshold" };
+static const int NKEYS[NKIND] = { 3, 5, 3, 2, 2, 2, 3 };
+#define MAXSRC 8
 typedef struct { int present, kind, key, flags, fired; } srcrec_t;
 
 typedef struct {
@@ -148,4 +151,29 @@ static int mon_send(int msg, int to /* slot or -1 */, int subject /* module whos
     }
     return n;
 }
+/* ---- monitor timers ---- */
+typedef struct { int used, slot, src /* index in MD[slot].src, -1 batch, -2 bucket, -3 ctx tick */, armed; uint64_t period, next; int oneshot; } mtimer_t;
+static mtimer_t MT[24];
+static mtimer_t *mt_find(int slot, int src) { for (int i = 0; i < 24; i++) if (MT[i].used && MT[i].slot == slot && MT[i].src == src) return &MT[i]; return NULL; }
+static void mt_set(int slot, int src, uint64_t period, int oneshot, int arm) {
+    mtimer_t *t = mt_find(slot, src);
+    if (!t) for (int i = 0; i < 24; i++) if (!MT[i].used) { t = &MT[i]; break; }
+    if (!t) vfail("INTERNAL", "INTERNAL", "monitor timers exhausted");
+    *t = (mtimer_t){ 1, slot, src, arm, period, shim_now_ns + period, oneshot };
+}
+static void mt_del(int slot, int src) { mtimer_t *t = mt_find(slot, src); if (t) t->used = 0; }
+static void mt_arm_all(int slot, int arm) { for (int i = 0; i < 24; i++) if (MT[i].used && MT[i].slot == slot) { MT[i].armed = arm; MT[i].next = shim_now_ns + MT[i].period; } }
+static void mt_del_all(int slot) { for (int i = 0; i < 24; i++) if (MT[i].used && MT[i].slot == slot) MT[i].used = 0; }
+static int tick_owed;
+static void mt_advance(void) {
+    for (int i = 0; i < 24; i++) { mtimer_t *t = &MT[i];
+        if (!t->used || !t->armed || t->next > shim_now_ns) continue;
+        if (t->oneshot) t->armed = 0; else t->next += (1 + (shim_now_ns - t->next) / t->period) * t->period;
+        if (t->src >= 0) MD[t->slot].src[t->src].fired = 1;
+        else if (t->src == -1) MD[t->slot].batch_fired = 1;
+        else if (t->src == -3) tick_owed = 1;
+    }
+}
+
+
 #endif
